@@ -289,4 +289,14 @@ def _run(pid, cfg, tier, seed, repo, work, t0):
 
 
 if __name__ == "__main__":
-    sys.exit(main())
+    try:
+        rc = main()
+    except Undecided as e:
+        print("UNDECIDED: %s" % e)
+        rc = 2
+    except Exception as e:  # a broken tool must never look like a verdict
+        import traceback
+        traceback.print_exc()
+        print("UNDECIDED: internal error in the checking machinery: %r" % (e,))
+        rc = 2
+    sys.exit(rc)
